@@ -308,6 +308,13 @@ Definition complete_cb (st : pstate) : mres :=
       end
   end.
 
+(* a tag of the current command still waits for its parameter *)
+Definition pending_param (f : frame) : bool :=
+  match f_curarg f with
+  | Some ca => match a_extra ca with Some _ => true | None => false end
+  | None => false
+  end.
+
 (* Parser.__command *)
 Definition m_command (T : tables) (st : pstate) (t : token) : mres :=
   match p_cstate st with
@@ -366,6 +373,7 @@ Definition m_command (T : tables) (st : pstate) (t : token) : mres :=
               | [] => MCrash
               | cur :: _ =>
                   if is_test cur || d_accept_children (f_def cur) then MFalse st1
+                  else if pending_param cur then MErr EMissingParam
                   else
                     match check_completion (with_cstate CNone st1) false with
                     | MTrue st2 =>
